@@ -125,3 +125,20 @@ pub open spec fn votes_refs(s: Seq<(Voter, VoterVotes)>) -> Seq<TransactionInput
 pub proof fn lemma_votes_refs_step(s: Seq<(Voter, VoterVotes)>, i: int)
     requires 0 <= i < s.len() ensures votes_refs(s.take(i + 1)) == votes_refs(s.take(i)) + wit_refs(s[i].1.script_witness)
 { assert(s.take(i + 1).drop_last() =~= s.take(i)); }
+
+/// inputs: the payment keys registered with key inputs, plus the signers every script witness of every script input declares
+pub open spec fn inner_keys(s: Seq<Option<ScriptWitnessType>>) -> Set<Rc<Ed25519KeyHash>> decreases s.len() {
+    if s.len() == 0 { Set::empty() } else { inner_keys(s.drop_last()) + opt_wit_keys(s.last()) }
+}
+pub proof fn lemma_inner_keys_step(s: Seq<Option<ScriptWitnessType>>, i: int)
+    requires 0 <= i < s.len() ensures inner_keys(s.take(i + 1)) == inner_keys(s.take(i)) + opt_wit_keys(s[i])
+{ assert(s.take(i + 1).drop_last() =~= s.take(i)); }
+pub open spec fn outer_keys(s: Seq<LinkedHashMap<TransactionInput, Option<ScriptWitnessType>>>) -> Set<Rc<Ed25519KeyHash>> decreases s.len() {
+    if s.len() == 0 { Set::empty() } else { outer_keys(s.drop_last()) + inner_keys(s.last().vals()) }
+}
+pub proof fn lemma_outer_keys_step(s: Seq<LinkedHashMap<TransactionInput, Option<ScriptWitnessType>>>, i: int)
+    requires 0 <= i < s.len() ensures outer_keys(s.take(i + 1)) == outer_keys(s.take(i)) + inner_keys(s[i].vals())
+{ assert(s.take(i + 1).drop_last() =~= s.take(i)); }
+pub open spec fn all_wits_wf(s: Seq<LinkedHashMap<TransactionInput, Option<ScriptWitnessType>>>) -> bool {
+    forall|i: int, j: int| 0 <= i < s.len() && 0 <= j < s[i].vals().len() ==> wit_wf(#[trigger] s[i].vals()[j])
+}
